@@ -389,6 +389,7 @@ class Interp:
         self.called: set[str] = set()
         self.lost_patterns: list[str] = []
         self.cls_fields: dict = {}
+        self._aux: dict = {}
         self.steps = 0
         self.fold_lists = self.content.concrete
         self.globals_store: dict = {}
@@ -400,6 +401,13 @@ class Interp:
             n = make()
             self.nodes[key] = n
             self.version += 1
+        return n
+
+    def memo(self, key, make):
+        """Identity-stable helper objects (bound methods, closures, partials): the same key gives the same node in every round."""
+        n = self._aux.get(key)
+        if n is None:
+            n = self._aux[key] = make()
         return n
 
     def seq(self, fr: Frame, e: ast.AST, kind: str, tag: str = "") -> Seq:
@@ -417,7 +425,7 @@ class Interp:
     def lib(self, name: str, recv: AV | None = None) -> AV:
         if recv is None:
             return ref(self.node(("lib", name), lambda: Lib(("lib", name), name)))
-        return ref(Lib(("lib", name, id(recv)), name, recv))
+        return ref(self.memo(("lib", name, recv), lambda: Lib(("lib", name, recv), name, recv)))
 
     def grow_elem(self, s: Seq, av: AV) -> None:
         av = av.plain()
@@ -695,7 +703,9 @@ class Interp:
         if isinstance(s, (ast.FunctionDef, ast.AsyncFunctionDef)):
             fi = getattr(s, "_func", None)
             if fi is not None:
-                env[s.name] = ref(Func((fr.ctx, id(s)), fi, None, env))
+                fn = self.memo(("def", fr.ctx, id(s)), lambda: Func(("def", fr.ctx, id(s)), fi, None, env))
+                fn.closure = env
+                env[s.name] = ref(fn)
             return env
         if isinstance(s, ast.Delete):
             return env
@@ -1023,7 +1033,7 @@ class Interp:
                         handled.add(i)
                         e = dict(at_raise)
                         if h.name:
-                            e[h.name] = ref(Opaque((fr.ctx, id(h)), "exc:" + r.name))
+                            e[h.name] = ref(self.memo(("exc", fr.ctx, id(h), r.name), lambda: Opaque((fr.ctx, id(h)), "exc:" + r.name)))
                         n = len(fr.facts)
                         if r.name == "builtins.KeyError" and r.where and r.where[0] == "absent":
                             fr.facts.append(r.where)
@@ -1092,8 +1102,11 @@ class Interp:
                     if new != self.cls_fields.get(key):
                         self.cls_fields[key] = new
                         self.version += 1
-            if isinstance(target.value, ast.Name) and (v.consts or v.top) and not v.refs:
-                env[f"{target.value.id}.{target.attr}"] = v  # scalars only: containers are shared through the heap anyway
+            if isinstance(target.value, ast.Name):
+                if (v.consts or v.top) and not v.refs:
+                    env[f"{target.value.id}.{target.attr}"] = v  # scalars only: containers are shared through the heap anyway
+                else:
+                    env.pop(f"{target.value.id}.{target.attr}", None)
         elif isinstance(target, ast.Subscript):
             base = self.ev(target.value, env, fr)
             k = self.ev(target.slice, env, fr) if not isinstance(target.slice, ast.Slice) else TOPV
@@ -1616,7 +1629,9 @@ class Interp:
         fi = getattr(e, "_func", None)
         if fi is None:
             return self.unknown_value("lambda")
-        return ref(Func((fr.ctx, id(e)), fi, None, env))
+        fn = self.memo(("lambda", fr.ctx, id(e)), lambda: Func(("lambda", fr.ctx, id(e)), fi, None, env))
+        fn.closure = env
+        return ref(fn)
 
     def e_Yield(self, e, env, fr):
         v = self.ev(e.value, env, fr) if e.value is not None else NONE
@@ -1905,12 +1920,12 @@ class Interp:
             if attr in c.methods:
                 fi = c.methods[attr]
                 if fi.is_staticmethod:
-                    return ref(Func(("sm", fi.fq), fi, None))
+                    return ref(self.memo(("sm", fi.fq), lambda: Func(("sm", fi.fq), fi, None)))
                 if fi.is_classmethod:
-                    return ref(Func(("cm", fi.fq, ci.fq), fi, ref(self.node(("cls", ci.fq), lambda: Cls(("cls", ci.fq), ci)))))
+                    return ref(self.memo(("cm", fi.fq, ci.fq), lambda: Func(("cm", fi.fq, ci.fq), fi, ref(self.node(("cls", ci.fq), lambda: Cls(("cls", ci.fq), ci))))))
                 if (fi.is_property or "cached_property" in fi.decorators) and self_av is not None:
                     return self.call_function(fi, [self_av], {}, fr, fi.node, bound=True)
-                return ref(Func(("m", fi.fq, id(self_av)), fi, self_av))
+                return ref(self.memo(("m", fi.fq, self_av), lambda: Func(("m", fi.fq, self_av), fi, self_av)))
             if attr in c.class_attrs:
                 key = ("classattr", c.fq, attr)
                 if key not in self._consts_memo:
@@ -1965,7 +1980,7 @@ class Interp:
                 after = mro[mro.index(n.after) + 1 :] if n.after in mro else self.repo.mro(n.after)[1:]
                 target = next((c.methods[e.attr] for c in after if e.attr in c.methods), None)
                 if target is not None:
-                    outs.append(ref(Func(("super", target.fq, id(n)), target, None if target.is_staticmethod else n.self_av)))
+                    outs.append(ref(self.memo(("super", target.fq, n.key), lambda: Func(("super", target.fq, n.key), target, None if target.is_staticmethod else n.self_av))))
                 elif e.attr in ("__init__", "__post_init__", "__init_subclass__", "__setattr__"):
                     outs.append(self.lib("builtins.object." + e.attr))
                 else:
@@ -2386,7 +2401,8 @@ class Interp:
                         outs.append(ref(t))
                 elif how == "groupdict":
                     d = self.dict_(fr, e, ("groupdict", m.key))
-                    d.fields = {}
+                    if d.fields is None and d.k.bottom:
+                        d.fields = {}
                     try:
                         names = list(re.compile(m.pattern.text, m.pattern.flags).groupindex)
                     except re.error:
@@ -2518,7 +2534,9 @@ class Interp:
                 self.grow_elem(s, el)
             return ref(s)
         if name in ("operator.methodcaller", "operator.itemgetter", "operator.attrgetter"):
-            return ref(OpCall((fr.ctx, id(e), name), name.rsplit(".", 1)[1], list(args), dict(kwargs)))
+            oc = self.memo(("opcall", fr.ctx, id(e), name), lambda: OpCall((fr.ctx, id(e), name), name.rsplit(".", 1)[1], list(args), dict(kwargs)))
+            oc.args, oc.kwargs = [join(p, q) for p, q in itertools.zip_longest(oc.args, args, fillvalue=BOT)], {k: join(oc.kwargs.get(k, BOT), v) for k, v in kwargs.items()}
+            return ref(oc)
         if name == "itertools.groupby":
             keyf = args[1] if len(args) > 1 else kwargs.get("key")
             el = self.iterate(a0, None, fr, None)
@@ -2548,7 +2566,11 @@ class Interp:
         if name in ("operator.or_", "operator.add", "operator.ior", "operator.iadd"):
             return self.binop(ast.BitOr() if "or" in name else ast.Add(), a0, args[1] if len(args) > 1 else BOT, fr, e)
         if name == "functools.partial":
-            return ref(Partial((fr.ctx, id(e), "partial"), a0, list(args[1:]), dict(kwargs)))
+            pt = self.memo(("partial", fr.ctx, id(e)), lambda: Partial((fr.ctx, id(e), "partial"), a0, list(args[1:]), dict(kwargs)))
+            pt.f = join(pt.f, a0)
+            pt.args = [join(p, q) for p, q in itertools.zip_longest(pt.args, args[1:], fillvalue=BOT)]
+            pt.kwargs = {k: join(pt.kwargs.get(k, BOT), v) for k, v in {**pt.kwargs, **kwargs}.items()}
+            return ref(pt)
         if name in ("functools.lru_cache", "functools.cache", "functools.wraps", "functools.cached_property"):
             return a0 if args and any(isinstance(x, Func) for x in a0.refs) else self.lib("identity-decorator")
         if name == "identity-decorator":
@@ -2821,7 +2843,8 @@ class Interp:
             return TOPV if not all(a.concrete for a in args) else ref(self._range(fr, e, args))
         if name == "super":
             if fr.fi is not None and fr.cls is not None and env is not None and fr.fi.param_names and fr.fi.param_names[0] in env:
-                return ref(Super((fr.ctx, id(e)), fr.cls, env[fr.fi.param_names[0]]))
+                sv = env[fr.fi.param_names[0]]
+                return ref(self.memo(("superobj", fr.ctx, id(e), sv.plain()), lambda: Super((fr.ctx, id(e)), fr.cls, sv)))
             return self.unknown_value("super() outside a method")
         if name.startswith("object."):
             return NONE
@@ -2856,7 +2879,7 @@ class Interp:
             outs = [ref(self.node(("cls", nd.cls.fq), lambda nd=nd: Cls(("cls", nd.cls.fq), nd.cls))) for nd in a0.refs if isinstance(nd, Rec)]
             return join(*outs) if outs else self.unknown_value("type()", a0)
         if isinstance(getattr(builtins, name.split(".")[0], None), type) and issubclass(getattr(builtins, name.split(".")[0]), BaseException):
-            return ref(Opaque((fr.ctx, id(e)), "exc:builtins." + name))
+            return ref(self.memo(("excobj", fr.ctx, id(e), name), lambda: Opaque((fr.ctx, id(e)), "exc:builtins." + name)))
         return self.unknown_value(f"builtin {name}", *args, *kwargs.values())
 
     def _range(self, fr: Frame, e: ast.AST, args: list[AV]) -> Seq:
